@@ -49,7 +49,10 @@ pub fn case(x: &Xfer) -> CaseOut {
             probes_exempted += (lp_before - lp_after) as u64;
             continue;
         }
-        if dgrams.iter().any(|d| d.size > b.mtu as usize) {
+        // (with min_change 1 the search can end on a probe of exactly the current MTU, so the probe is
+        // recognised by the packet number quinn records for it, not only by its size)
+        let probe_emitted = a.mtu_probe.is_some() && a.mtu_probe != b.mtu_probe && eliciting.len() == 1;
+        if probe_emitted || dgrams.iter().any(|d| d.size > b.mtu as usize) {
             mtu_probe_exempted += 1;
             continue; // MTU probe (checked by C13)
         }
@@ -85,6 +88,18 @@ pub fn case(x: &Xfer) -> CaseOut {
                         b.in_flight, a.in_flight, win
                     ),
                 );
+            }
+            if std::env::var("QV_C12_DEBUG").is_ok() {
+                for rec in &w.trace {
+                    match rec {
+                        Rec::Tx { t: tt, conn: cc, dst, dgrams, before: Some(b), after: Some(a), .. } if cc == conn && *tt + 300_000 > *t && tt <= t => {
+                            eprintln!("  Tx t={tt} mp {:?}->{:?} dst={dst} sizes {:?} lp {:?}->{:?} inflight {}->{} win {}->{} mtu {}->{} frames {:?}", b.mtu_probe, a.mtu_probe, dgrams.iter().map(|d| d.size).collect::<Vec<_>>(), b.loss_probes, a.loss_probes, b.in_flight, a.in_flight, b.window, a.window, b.mtu, a.mtu, dgrams.iter().flat_map(|d| d.pkts.iter().map(|p| (p.pn, p.frames.as_ref().map(|f| f.iter().map(|x| format!("{x:?}").chars().take(20).collect::<String>()).collect::<Vec<_>>())))).collect::<Vec<_>>());
+                        }
+                        Rec::Timeout { t: tt, conn: cc, .. } if cc == conn && *tt + 300_000 > *t && tt <= t => eprintln!("  Timeout t={tt}"),
+                        Rec::Rx { t: tt, ep, from, size, .. } if *tt + 300_000 > *t && tt <= t => eprintln!("  Rx t={tt} ep={ep} from={from} size={size}"),
+                        _ => {}
+                    }
+                }
             }
             return CaseOut::fail(
                 "c12/gate",
@@ -165,7 +180,10 @@ pub fn case(x: &Xfer) -> CaseOut {
             c.dirty = true;
         }
         let until = w.now + 30_000_000;
-        w.run(until, |_| false);
+        let dbg = std::env::var("QV_C12_DEBUG").is_ok();
+        if dbg { eprintln!("forced: now {} step {} limit {} viol {:?}", w.now, w.step, w.step_limit, w.viol.len()); }
+        let ok = w.run(until, |_| false);
+        if dbg { eprintln!("forced: after run ok={ok} now {} step {} hit {} viol {:?}", w.now, w.step, w.hit_step_limit, w.viol.iter().map(|v| (v.sig.clone(), v.msg.clone())).collect::<Vec<_>>()); for c in &w.conns { let p = c.c.verif_probe(); eprintln!("  {:?} tracked {:?} inflight {} timers {:?} deadline {:?}", c.side, p.sent_packets, p.bytes_in_flight, p.timers_armed, c.deadline); } }
         // an ACK lost just before may leave a sender waiting for a probe timeout that carries the backoff
         // of an earlier loss episode (quinn keeps the PTO backoff when it discards the Handshake space):
         // let every armed loss-detection timer fire and its probe be answered (virtual time is free)
@@ -279,7 +297,14 @@ pub fn run(report: &Report) -> i32 {
         "proptest-generated bulk/bursty transfers x all controllers incl. a scripted adversarial window (>= 2 MTU) x loss/reorder/dup/ECN, applications calling path_changed(); oracles: congestion gate around every poll_transmit with the documented exemptions, probe budget, in-flight balance at forced quiescence, no loss declared on a clean path; non-trivial = sender was window-limited AND a packet was declared lost",
         || {
             use proptest::prelude::*;
-            (arb_xfer(gen()), 0u8..3, prop::collection::vec((any::<bool>(), 20_000u32..3_000_000), 0..3), prop::bool::weighted(0.3)).prop_map(|(mut x, k, pcs, with_pc)| {
+            (arb_xfer(gen()), 0u8..3, prop::collection::vec((any::<bool>(), 20_000u32..3_000_000), 0..3), prop::bool::weighted(0.3), prop::option::weighted(0.25, (100_000u32..3_000_000, any::<bool>()))).prop_map(|(mut x, k, pcs, with_pc, mv)| {
+                if let (Some((t, v4)), true) = (mv, k != 0 && x.net.client_ep.cid_len > 0 && x.net.server_ep.cid_len > 0) {
+                    // the client's datagrams leave from another port of the same host in mid-transfer
+                    // (with IPv4 addresses quinn carries RTT and congestion state over to the new path)
+                    x.net.client_move_at_us = Some(t);
+                    x.net.srv.migration = true;
+                    x.net.ipv4 = v4;
+                }
                 if k == 0 {
                     x.net.faults_c2s.clear();
                     x.net.faults_s2c.clear();
